@@ -26,7 +26,7 @@ REQUIRED = ('population_many', 'population_empty', 'cases_losing_every_value_fil
 ASSUMPTIONS = ('a repair may legitimately add "empty directory" warnings for directories it has just emptied',)
 
 T = 64
-KINDS = ['deleted', 'truncated', 'extended', 'unknown', 'emptydir', 'count', 'size']
+KINDS = ['deleted', 'truncated', 'extended', 'unknown', 'emptydir', 'count', 'size', 'moved', 'copied']
 
 
 def plan(tier):
@@ -104,6 +104,25 @@ def damage(rng, d, kind, rows, done):
             with open(p, 'ab') as f:
                 f.write(b'\x00extra' * rng.randrange(1, 4))
         return ('wrong file size', p, r)
+    if kind in ('moved', 'copied'):
+        # a value file carried to another place inside the cache directory under its own name (a backup, a move by
+        # hand): where it was it is missing (moved), where it is now it is a file nobody refers to
+        if not file_rows:
+            return None
+        r = gen.pick(rng, file_rows)
+        src = os.path.join(d, r['filename'])
+        dd = os.path.join(d, gen.pick(rng, ['elsewhere', 'backup/old', os.path.dirname(r['filename']) + 'x']))
+        dst = os.path.join(dd, os.path.basename(src))
+        if os.path.exists(dst):
+            return None
+        os.makedirs(dd, exist_ok=True)
+        import shutil
+        if kind == 'moved':
+            done.add(r['filename'])
+            os.rename(src, dst)
+            return [('file not found', src, r), ('unknown file', dst, None)]
+        shutil.copyfile(src, dst)
+        return ('unknown file', dst, None)
     if kind == 'unknown':
         depth = rng.randrange(0, 4)
         parts = ['%02x' % rng.randrange(256) for _ in range(depth)]
@@ -232,11 +251,12 @@ def _case(dc, sc, res, rng, kinds, fanout, label, spelling):
         injected, done = [], set()
         for k in kinds:
             r = damage(rng, target, k, rows, done)
-            if r is not None:
-                injected.append(r)
-                if r[2] is not None:
-                    r[2]['damage_kind'] = k
-                res.count('kinds_' + k)
+            for r in (r if isinstance(r, list) else [r]):
+                if r is not None:
+                    injected.append(r)
+                    if r[2] is not None:
+                        r[2]['damage_kind'] = 'deleted' if k == 'moved' else k
+                    res.count('kinds_' + k)
         if not injected:
             return
         modes = tuple(sorted({r['mode'] for _, _, r in injected if r}))
